@@ -41,11 +41,11 @@ def buildGen (self : Nat) (later : List (Nat × List Instr)) (toks : List String
   let mut cur : List Instr := []      -- reversed
   let mut stack : List Open := []
   for tok in toks do
-    let k := tok.take 1
-    let arg := num (tok.drop 1)
+    let k := (tok.take 1).toString
+    let arg := num (tok.drop 1).toString
     match k with
     | "y" => cur := .yld arg :: cur
-    | "r" => cur := .rec arg :: cur
+    | "r" => cur := .recd arg :: cur
     | "f" => cur := .fail false :: cur
     | "F" => cur := .fail true :: cur
     | "q" => cur := .nop :: cur
@@ -77,8 +77,8 @@ def parseGens (s : String) : Gens := Id.run do
   return (List.range n).map (fun i => (lookup built i).getD [])
 
 def parseOp (tok : String) : Option Op :=
-  let k := tok.take 1
-  let rest := tok.drop 1
+  let k := (tok.take 1).toString
+  let rest := (tok.drop 1).toString
   match k with
   | "a" => some (.enterA (num rest))
   | "w" => some (.enterS (num rest))
